@@ -211,9 +211,13 @@ class Categorize(Factory, Container):
             if not isinstance(q, (basestring, bool)):
                 raise TypeError(f"function return value ({q}) must be a string or bool")
 
-            if q not in self.bins:
-                self.bins[q] = self.value.zero()
-            self.bins[q].fill(datum, weight)
+            if q in self.bins:
+                self.bins[q].fill(datum, weight)
+            else:
+                # only keep the new bin if filling it did not raise (for rollback)
+                newbin = self.value.zero()
+                newbin.fill(datum, weight)
+                self.bins[q] = newbin
 
             # no possibility of exception from here on out (for rollback)
             self.entries += weight
